@@ -12,6 +12,9 @@
                        (iii) the size measure of the state (weighted points of CODE, EXEC and the
                              bindings, characters of the NAME stack, elements of the vector stacks,
                              stack depths) is <= SIZE_BOUND;
+                       (iv)  no item on CODE, EXEC or in the bindings is nested deeper than DEPTH_BOUND
+                             (pushr recurses over items on the native stack: Clone, Drop, Item::size,
+                             Display; the model cannot exhibit native stack exhaustion);
                      and the number of steps asked for is <= STEP_BOUND.
                      result (0 1) inside, (0 0) outside, (2 fn arg) a libm value is missing.
                      A Panic of the model step ends the simulation INSIDE the envelope: the differential
@@ -32,6 +35,7 @@ Definition ALLOC_BOUND : Z := 100000.
 Definition NBR_BOUND : Z := 1000.
 Definition SIZE_BOUND : Z := 200000.
 Definition STEP_BOUND : Z := 10000.
+Definition DEPTH_BOUND : Z := 5000.
 
 Definition alloc_names : list str := map s2l
   [ "BOOLVECTOR.ONES"; "BOOLVECTOR.ZEROS"; "INTVECTOR.ONES"; "INTVECTOR.ZEROS"; "FLOATVECTOR.ONES"; "FLOATVECTOR.ZEROS";
@@ -66,6 +70,17 @@ Definition measure (s : state) : Z :=
   zlen (st_bool s) + zlen (st_float s) + zlen (st_int s) + zlen (st_index s) +
   msgs (st_input s) + msgs (st_output s) + zlen (st_graph s).
 
+Fixpoint depth (t : item) : Z :=
+  match t with
+  | IList l => 1 + (fix go (l : list item) : Z := match l with [] => 0 | x :: r => Z.max (depth x) (go r) end) l
+  | _ => 0
+  end.
+Definition depths (l : list item) : Z := fold_right (fun x a => Z.max (depth x) a) 0 l.
+Definition nesting (s : state) : Z :=
+  Z.max (depths (st_code s)) (Z.max (depths (st_exec s)) (depths (map snd (st_bind s)))).
+
+Definition size_guard (s : state) : bool := (measure s <=? SIZE_BOUND) && (nesting s <=? DEPTH_BOUND).
+
 (* ---- the guard ---- *)
 Definition ints_le (k : nat) (b : Z) (s : state) : bool := forallb (fun z => z <=? b) (firstn k (st_int s)).
 
@@ -96,7 +111,7 @@ Section Sim.
 
   (* [grow]: stop like the run loop does when a step exceeds the growth cap *)
   Fixpoint sim (grow : bool) (k : nat) (w : world) (s : state) : res bool :=
-    if negb (measure s <=? SIZE_BOUND) then Ok false
+    if negb (size_guard s) then Ok false
     else match k with
          | O => Ok true
          | S k' =>
@@ -105,7 +120,7 @@ Section Sim.
                   | Ok (fin, w', s') =>
                       if fin then Ok true
                       else if grow && (state_size s + cfg_growth_cap (st_cfg s') <? state_size s')
-                           then Ok (measure s' <=? SIZE_BOUND)
+                           then Ok (size_guard s')
                            else sim grow k' w' s'
                   | Panic => Ok true
                   | Need fn x => Need fn x
